@@ -15,6 +15,7 @@ pub fn profile(name: &str) -> Option<Profile> {
         force_disk: false,
         rebuild_checks: false,
         rrdp_swarm: false,
+        net: None,
     };
     Some(match name {
         "c01" => Profile {
@@ -96,7 +97,8 @@ pub fn profile(name: &str) -> Option<Profile> {
             name: "c06",
             oracles: Oracles { c06: true, ..Default::default() },
             gen_cfg: GenCfg {
-                w_maintenance: 22,
+                w_maintenance: 26,
+                w_removal: 14,
                 ..GenCfg::default()
             },
             rebuild_checks: true,
@@ -137,6 +139,30 @@ pub fn profile(name: &str) -> Option<Profile> {
                 ..GenCfg::default()
             },
             rebuild_checks: true,
+            ..base
+        },
+        "net" | "netfaults" => Profile {
+            name: if name == "net" { "net" } else { "netfaults" },
+            oracles: Oracles { c01: true, c02: true, c03: true, ..Default::default() },
+            gen_cfg: GenCfg {
+                w_entitlement: 25,
+                w_config: 30,
+                w_removal: 8,
+                w_keyroll: 12,
+                w_maintenance: 10,
+                allow_restart: false,
+                ..GenCfg::default()
+            },
+            net: Some(if name == "net" {
+                crate::net::NetCfg::reliable()
+            } else {
+                crate::net::NetCfg {
+                    drop_request_permille: 60,
+                    drop_response_permille: 60,
+                    duplicate_permille: 80,
+                    late_copy_permille: 60,
+                }
+            }),
             ..base
         },
         "all" => Profile {
